@@ -50,7 +50,7 @@ def elements():
         vals = {}
         for node in tree.body:
             if isinstance(node, ast.Assign) and len(node.targets) == 1 and isinstance(node.targets[0], ast.Name):
-                if node.targets[0].id in ("element_symbols", "atomic_numbers"):
+                if node.targets[0].id in ("element_symbols", "atomic_numbers", "element_names", "element_colors"):
                     try:
                         vals[node.targets[0].id] = ast.literal_eval(node.value)
                     except ValueError:
@@ -60,7 +60,17 @@ def elements():
                         vals[node.targets[0].id] = list(eval(compile(ast.Expression(node.value), "<gen>", "eval"), env))
         syms, nums = vals["element_symbols"], list(vals["atomic_numbers"])
         assert len(syms) == len(nums) and all(isinstance(s, str) for s in syms) and all(isinstance(n, int) for n in nums)
-        # D/T table and V2000 charge table
+        # ELEMENT_ATTRS is a comprehension over zip(<lists>): zip stops at the shortest list, so the table the
+        # library really uses has only that many rows
+        try:
+            for node in tree.body:
+                if isinstance(node, ast.AnnAssign) and getattr(node.target, "id", "") == "ELEMENT_ATTRS" and isinstance(node.value, ast.DictComp):
+                    it = node.value.generators[0].iter
+                    if isinstance(it, ast.Call) and getattr(it.func, "id", "") == "zip":
+                        rows = min(len(vals[a.id]) for a in it.args)
+                        syms, nums = syms[:rows], nums[:rows]
+        except Exception as e:
+            fallbacks.append("ELEMENT_ATTRS rows: %r" % (e,))
         return list(zip(syms, nums))
     except Exception as e:  # pragma: no cover
         fallbacks.append("elements: %r" % (e,))
